@@ -105,6 +105,8 @@ namespace OpenMEEG {
     inline Vector SymMatrix::solveLin(const Vector& B) const {
         SymMatrix invA(*this,DEEP_COPY);
         Vector X(B,DEEP_COPY);
+        if (nlin()==0) // Empty system (LAPACKE rejects a zero leading dimension).
+            return X;
 
     #ifdef HAVE_LAPACK
         // Bunch Kaufman factorization
@@ -126,6 +128,8 @@ namespace OpenMEEG {
 
     inline void SymMatrix::solveLin(Vector* B,const int nbvect) {
         SymMatrix invA(*this,DEEP_COPY);
+        if (nlin()==0) // Empty system (LAPACKE rejects a zero leading dimension).
+            return;
 
     #ifdef HAVE_LAPACK
         // Bunch Kaufman Factorization
